@@ -751,3 +751,64 @@ def rule_NOMOVE(ctx):
     if n < 80:
         raise AnalysisError(f'only {n} non-moving public names examined (floor 80)')
     return r
+
+
+def rule_SELFOP(ctx):
+    """An in-place operation may be handed the object itself as operand (s.insert(s, k), s.overwrite(s, k), a ^= a).  Once
+    the receiver has been changed, reading the operand again reads the CHANGED receiver - e.g. `self._pos = pos + len(bs)`
+    after the write uses the new length.  So in every mutator of the stream classes that reads an operand after its first
+    effect on self, the operand is decoupled first (`if bs is self: bs = <copy>`) or the value was taken before."""
+    from .mutate import _stmt_effect
+    from .ownership import get_effects
+    m = ctx.m
+    E = get_effects(ctx)
+    r = RuleResult('SELFOP', 'an operand that may be the receiver itself is not read again after the receiver has been changed')
+    n = 0
+    for c in ('BitStream',):
+        for name, f in sorted(m.classes[c].methods.items()):
+            node = ctx.node(f, c)
+            ps = f.params()[1:]
+            if not ps:
+                continue
+            fa = ctx.fa(node)
+            # operands: parameters that are (or are promoted to) bitstrings
+            ops = set()
+            for x in own_walk(f.node):
+                if isinstance(x, ast.Call) and isinstance(x.func, ast.Attribute) and x.func.attr in m.promoters and x.args \
+                        and isinstance(x.args[0], ast.Name) and x.args[0].id in ps:
+                    ops.add(x.args[0].id)
+            if not ops:
+                continue
+            body = G.body_wo_doc(f)
+            first = None
+            for i, s in enumerate(body):
+                if _stmt_effect(ctx, E, node, s, 'self', False) is not None:
+                    first = i
+                    break
+            if first is None:
+                continue
+            for op in sorted(ops):
+                later = [y for s in body[first + 1:] for y in ast.walk(s) if isinstance(y, ast.Name) and y.id == op and isinstance(y.ctx, ast.Load)]
+                if not later:
+                    continue
+                n += 1
+                decoupled = False
+                for s in body[:first]:
+                    if isinstance(s, ast.If):
+                        t = ast.unparse(s.test)
+                        if t in (f'{op} is self', f'self is {op}') and any(isinstance(y, ast.Assign) and any(isinstance(tt, ast.Name) and tt.id == op for tt in y.targets)
+                                                                               and isinstance(y.value, ast.Call) and 'copy' in ast.unparse(y.value.func) for y in s.body):
+                            decoupled = True
+                    # unconditional private copy of the operand
+                    if isinstance(s, ast.Assign) and any(isinstance(tt, ast.Name) and tt.id == op for tt in s.targets) and isinstance(s.value, ast.Call) \
+                            and ast.unparse(s.value.func).endswith(('_copy', '__copy__')):
+                        decoupled = True
+                if decoupled:
+                    r.ok(f'{f.key}:{op}', {'instance': f.key, 'operand': op, 'read_after_effect': norm(later[0]), 'verdict': 'decoupled from self before the effect'})
+                else:
+                    r.fail(f.key, f'{name}: {op} read after self was changed', f"{c}.{name} reads its operand '{op}' after it has changed self, without first "
+                           f"replacing it by a copy when `{op} is self`: for s.{name}(s, ...) the value read (e.g. len({op})) is that of the already "
+                           'changed object, so the position ends up beyond the written bits', loc=f.loc(later[0]))
+    if n < 2:
+        raise AnalysisError(f'only {n} operand reads after an effect found in the stream mutators (insert and overwrite expected)')
+    return r
